@@ -5,42 +5,44 @@ import (
 	vrt "github.com/sahandsafizadeh/qeep/zzvrt"
 )
 
-// H_C06_slice: Slice returns the block selected by half-open ranges; omitted / {0,0} = whole dim.
+/* C06 — indexing, reshaping and construction move elements without changing them.
+   Element values are opaque solver reals; every assertion is an identity between the
+   result element and the input variable the reference index map selects. */
+
+// drawIndex draws a Slice/Patch index of solver-chosen length 0..r over dims, assumed valid
+// for Slice, and returns the completed offsets and block sizes.
+func drawIndex(r int, dims []int) (index []tensor.Range, from, size []int, whole []bool) {
+	n := vrt.Int("ilen", 0, r)
+	index = make([]tensor.Range, n)
+	from = make([]int, r)
+	size = make([]int, r)
+	whole = make([]bool, r)
+	for i := 0; i < r; i++ {
+		from[i] = 0
+		size[i] = dims[i]
+		whole[i] = true
+	}
+	for i := range index {
+		f := vrt.Int(vrt.Nm("from", i), -1, 4)
+		t := vrt.Int(vrt.Nm("to", i), -1, 4)
+		index[i] = tensor.Range{From: f, To: t}
+		w := vrt.And(f == 0, t == 0)
+		vrt.Assume(vrt.Or(w, vrt.And(vrt.And(0 <= f, f < t), t <= dims[i])))
+		if !w {
+			from[i] = f
+			size[i] = t - f
+			whole[i] = false
+		}
+	}
+	return
+}
+
 func H_C06_slice() {
 	r := vrt.Param("rank")
 	dims := symDims("d", r, vrt.Param("maxdim"))
 	x, xe := mk("x", dims, false)
-
-	n := vrt.Int("ilen", 0, r+1)
-	index := make([]tensor.Range, n)
-	valid := n <= r
-	from := make([]int, r)
-	odims := make([]int, r)
-	for i := 0; i < r; i++ {
-		from[i] = 0
-		odims[i] = dims[i]
-	}
-	for i := range index {
-		f := vrt.Int(vrt.Nm("from", i), -2, 6)
-		t := vrt.Int(vrt.Nm("to", i), -2, 6)
-		index[i] = tensor.Range{From: f, To: t}
-		if i < r {
-			whole := vrt.And(f == 0, t == 0)
-			expl := vrt.And(vrt.And(0 <= f, f < t), t <= dims[i])
-			valid = vrt.And(valid, vrt.Or(whole, expl))
-			if !whole {
-				from[i] = f
-				odims[i] = t - f
-			}
-		}
-	}
+	index, from, odims, _ := drawIndex(r, dims)
 	y, err := x.Slice(index)
-	if !valid {
-		vrt.Assert("invalid index rejected", err != nil)
-		vrt.Assert("no result on error", y == nil)
-		vrt.Reach("rejected")
-		return
-	}
 	vrt.Assert("valid index accepted", err == nil)
 	if err != nil {
 		return
@@ -56,4 +58,334 @@ func H_C06_slice() {
 	}
 	checkTensor("slice", y, odims, want)
 	vrt.Reach("accepted")
+}
+
+func H_C06_at() {
+	r := vrt.Param("rank")
+	dims := symDims("d", r, vrt.Param("maxdim"))
+	x, xe := mk("x", dims, false)
+	idx := make([]int, r)
+	for i := range idx {
+		idx[i] = vrt.Int(vrt.Nm("i", i), 0, 3)
+		vrt.Assume(idx[i] < dims[i])
+	}
+	v, err := x.At(idx...)
+	vrt.Assert("valid index accepted", err == nil)
+	if err != nil {
+		return
+	}
+	vrt.AssertEqF("At", v, xe[ravel(idx, dims)])
+	vrt.Assert("NElems", x.NElems() == numel(dims))
+	vrt.Reach("accepted")
+}
+
+func H_C06_patch() {
+	r := vrt.Param("rank")
+	dims := symDims("d", r, vrt.Param("maxdim"))
+	x, xe := mk("x", dims, false)
+	// source block: every size 1..dims[i]; index valid for Slice on dims and covering the source exactly
+	udims := make([]int, r)
+	for i := range udims {
+		udims[i] = vrt.Int(vrt.Nm("u", i), 1, 3)
+		vrt.Assume(udims[i] <= dims[i])
+	}
+	u, ue := mk("p", udims, false)
+	index, from, size, whole := drawIndex(r, dims)
+	for i := 0; i < r; i++ {
+		if !whole[i] {
+			vrt.Assume(size[i] == udims[i])
+		}
+	}
+	y, err := x.Patch(index, u)
+	vrt.Assert("valid patch accepted", err == nil)
+	if err != nil {
+		return
+	}
+	want := make([]float64, len(xe))
+	idx := make([]int, r)
+	for k := range want {
+		unravel(k, dims, idx)
+		inside := true
+		for i := range idx {
+			idx[i] -= from[i]
+			if idx[i] < 0 || idx[i] >= udims[i] {
+				inside = false
+			}
+		}
+		if inside {
+			want[k] = ue[ravel(idx, udims)]
+		} else {
+			want[k] = xe[k]
+		}
+	}
+	checkTensor("patch", y, dims, want)
+	// target and source are unchanged
+	checkTensor("patch leaves target", x, dims, xe)
+	checkTensor("patch leaves source", u, udims, ue)
+	// slicing what was patched returns the source block
+	full := make([]tensor.Range, r)
+	for i := range full {
+		full[i] = tensor.Range{From: from[i], To: from[i] + udims[i]}
+	}
+	if r > 0 {
+		z, err := y.Slice(full)
+		vrt.Assert("slice after patch accepted", err == nil)
+		if err == nil {
+			checkTensor("slice after patch", z, udims, ue)
+		}
+	}
+	vrt.Reach("accepted")
+}
+
+func H_C06_concat() {
+	r := vrt.Param("rank")
+	maxd := vrt.Param("maxdim")
+	n := vrt.Param("operands")
+	dim := vrt.Int("dim", 0, r-1)
+	base := symDims("d", r, maxd)
+	ts := make([]T, n)
+	es := make([][]float64, n)
+	ds := make([][]int, n)
+	odims := make([]int, r)
+	copy(odims, base)
+	total := 0
+	for j := 0; j < n; j++ {
+		dj := make([]int, r)
+		copy(dj, base)
+		dj[dim] = vrt.Concretize(vrt.Int(vrt.Nm("c", j), 1, maxd))
+		ds[j] = dj
+		ts[j], es[j] = mk(vrt.Nm("x", j), dj, false)
+		total += dj[dim]
+	}
+	d := vrt.Concretize(dim)
+	odims[d] = total
+	y, err := tensor.Concat(ts, dim)
+	vrt.Assert("valid concat accepted", err == nil)
+	if err != nil {
+		return
+	}
+	want := make([]float64, numel(odims))
+	idx := make([]int, r)
+	for k := range want {
+		unravel(k, odims, idx)
+		off := idx[d]
+		j := 0
+		for off >= ds[j][d] {
+			off -= ds[j][d]
+			j++
+		}
+		idx[d] = off
+		want[k] = es[j][ravel(idx, ds[j])]
+	}
+	checkTensor("concat", y, odims, want)
+	// slicing what was concatenated returns the pieces
+	start := 0
+	for j := 0; j < n; j++ {
+		index := make([]tensor.Range, r)
+		index[d] = tensor.Range{From: start, To: start + ds[j][d]}
+		z, err := y.Slice(index)
+		vrt.Assert("slice after concat accepted", err == nil)
+		if err == nil {
+			checkTensor("slice after concat", z, ds[j], es[j])
+		}
+		start += ds[j][d]
+	}
+	vrt.Reach("accepted")
+}
+
+// drawFactorisation draws a shape of solver-chosen rank 0..maxRank whose sizes multiply to n.
+func drawFactorisation(n, maxRank int) []int {
+	r2 := vrt.Concretize(vrt.Int("r2", 0, maxRank))
+	shape := make([]int, r2)
+	rem := n
+	for i := 0; i < r2; i++ {
+		if i == r2-1 {
+			shape[i] = rem
+			rem = 1
+		} else {
+			s := vrt.Concretize(vrt.Int(vrt.Nm("s", i), 1, rem))
+			vrt.Assume(rem%s == 0)
+			shape[i] = s
+			rem /= s
+		}
+	}
+	vrt.Assume(rem == 1)
+	return shape
+}
+
+func H_C06_reshape() {
+	r := vrt.Param("rank")
+	dims := symDims("d", r, vrt.Param("maxdim"))
+	x, xe := mk("x", dims, false)
+	shape := drawFactorisation(numel(dims), vrt.Param("maxrank2"))
+	y, err := x.Reshape(shape)
+	vrt.Assert("valid reshape accepted", err == nil)
+	if err != nil {
+		return
+	}
+	checkTensor("reshape", y, shape, xe)
+	vrt.Assert("NElems", y.NElems() == numel(shape))
+	vrt.Reach("accepted")
+}
+
+func H_C06_flatten() {
+	r := vrt.Param("rank")
+	dims := symDims("d", r, vrt.Param("maxdim"))
+	x, xe := mk("x", dims, false)
+	from := vrt.Concretize(vrt.Int("from", 0, r-1))
+	y, err := x.Flatten(from)
+	vrt.Assert("valid flatten accepted", err == nil)
+	if err != nil {
+		return
+	}
+	odims := make([]int, from+1)
+	copy(odims, dims[:from])
+	odims[from] = numel(dims[from:])
+	checkTensor("flatten", y, odims, xe)
+	vrt.Reach("accepted")
+}
+
+func H_C06_squeeze() {
+	r := vrt.Param("rank")
+	dims := symDims("d", r, vrt.Param("maxdim"))
+	dim := vrt.Concretize(vrt.Int("dim", 0, r-1))
+	vrt.Assume(dims[dim] == 1)
+	x, xe := mk("x", dims, false)
+	y, err := x.Squeeze(dim)
+	vrt.Assert("valid squeeze accepted", err == nil)
+	if err != nil {
+		return
+	}
+	odims := make([]int, 0, r)
+	odims = append(odims, dims[:dim]...)
+	odims = append(odims, dims[dim+1:]...)
+	checkTensor("squeeze", y, odims, xe)
+	vrt.Reach("accepted")
+}
+
+func H_C06_unsqueeze() {
+	r := vrt.Param("rank")
+	dims := symDims("d", r, vrt.Param("maxdim"))
+	dim := vrt.Concretize(vrt.Int("dim", 0, r))
+	x, xe := mk("x", dims, false)
+	y, err := x.UnSqueeze(dim)
+	vrt.Assert("valid unsqueeze accepted", err == nil)
+	if err != nil {
+		return
+	}
+	odims := make([]int, 0, r+1)
+	odims = append(odims, dims[:dim]...)
+	odims = append(odims, 1)
+	odims = append(odims, dims[dim:]...)
+	checkTensor("unsqueeze", y, odims, xe)
+	vrt.Reach("accepted")
+}
+
+// drawBroadcastTarget draws a target shape of rank r..maxRank that dims can be broadcast to.
+func drawBroadcastTarget(dims []int, maxRank, maxd int) []int {
+	r := len(dims)
+	r2 := vrt.Concretize(vrt.Int("r2", r, maxRank))
+	shape := make([]int, r2)
+	for j := 0; j < r2; j++ {
+		shape[j] = vrt.Int(vrt.Nm("t", j), 1, maxd)
+		i := j - (r2 - r)
+		if i >= 0 {
+			vrt.Assume(vrt.Or(dims[i] == shape[j], dims[i] == 1))
+		}
+	}
+	return shape
+}
+
+// refBroadcast gives the elements of e (shape dims) repeated to shape (right-aligned).
+func refBroadcast(e []float64, dims, shape []int) []float64 {
+	r, r2 := len(dims), len(shape)
+	out := make([]float64, numel(shape))
+	idx := make([]int, r2)
+	sidx := make([]int, r)
+	for k := range out {
+		unravel(k, shape, idx)
+		for i := 0; i < r; i++ {
+			if dims[i] == 1 {
+				sidx[i] = 0
+			} else {
+				sidx[i] = idx[i+r2-r]
+			}
+		}
+		out[k] = e[ravel(sidx, dims)]
+	}
+	return out
+}
+
+func H_C06_broadcast() {
+	r := vrt.Param("rank")
+	maxd := vrt.Param("maxdim")
+	dims := symDims("d", r, maxd)
+	shape := drawBroadcastTarget(dims, vrt.Param("maxrank2"), maxd)
+	x, xe := mk("x", dims, false)
+	y, err := x.Broadcast(shape)
+	vrt.Assert("valid broadcast accepted", err == nil)
+	if err != nil {
+		return
+	}
+	for j := range shape {
+		shape[j] = vrt.Concretize(shape[j])
+	}
+	checkTensor("broadcast", y, shape, refBroadcast(xe, dims, shape))
+	vrt.Reach("accepted")
+}
+
+func H_C06_construct() {
+	r := vrt.Param("rank")
+	dims := symDims("d", r, vrt.Param("maxdim"))
+	n := numel(dims)
+	v := vrt.Float("v")
+	tracked := vrt.Bool("tracked")
+	c := conf(tracked)
+
+	want := make([]float64, n)
+	for k := range want {
+		want[k] = v
+	}
+	f, err := tensor.Full(dims, v, c)
+	vrt.Assert("Full accepted", err == nil)
+	if err == nil {
+		checkTensor("Full", f, dims, want)
+		vrt.Assert("Full NElems", f.NElems() == n)
+	}
+	for k := range want {
+		want[k] = 0
+	}
+	z, err := tensor.Zeros(dims, c)
+	vrt.Assert("Zeros accepted", err == nil)
+	if err == nil {
+		checkTensor("Zeros", z, dims, want)
+	}
+	for k := range want {
+		want[k] = 1
+	}
+	o, err := tensor.Ones(dims, c)
+	vrt.Assert("Ones accepted", err == nil)
+	if err == nil {
+		checkTensor("Ones", o, dims, want)
+	}
+	// TensorOf holds exactly the requested values (mk goes through TensorOf for rank <= 4)
+	x, xe := mk("x", dims, tracked)
+	checkTensor("TensorOf", x, dims, xe)
+	vrt.Assert("TensorOf NElems", x.NElems() == n)
+	vrt.Reach("done")
+}
+
+func H_C06_eye() {
+	n := vrt.Concretize(vrt.Int("n", 1, vrt.Param("maxn")))
+	e, err := tensor.Eye(n, conf(vrt.Bool("tracked")))
+	vrt.Assert("Eye accepted", err == nil)
+	if err != nil {
+		return
+	}
+	want := make([]float64, n*n)
+	for i := 0; i < n; i++ {
+		want[i*n+i] = 1
+	}
+	checkTensor("Eye", e, []int{n, n}, want)
+	vrt.Reach("done")
 }
